@@ -307,20 +307,53 @@ def _is_push(c, wrappers) -> bool:
 
 
 def check_line_breaks(ctx, f: FuncInfo, rule="ORD-br"):
-  """In the per-line loop of a text handler, a Br is pushed for every line but the first, and
-  nothing can skip it: the only test on the path from the loop header to the Br push is
-  `i > 0`, and no `continue` precedes it."""
+  """In the per-line loop of a text handler, a Br is pushed at the insertion point before every line
+  but the first, and nothing can skip it.  The loop body is evaluated for the first three iterations
+  (index variable of enumerate, or a first-line flag, carried from one iteration to the next): the
+  pushes recorded must be none / Br first / Br first, with no undecidable test that could skip or
+  leave the loop in front of the Br."""
+  from . import fineval
   ctx.unit(f.module)
-  loops = [lp for lp in own_nodes(f.node) if isinstance(lp, ast.For) and "enumerate(" in unparse(lp.iter)]
+  loops = [lp for lp in own_nodes(f.node) if isinstance(lp, ast.For) and not any(isinstance(o, ast.For) and o is not lp and any(x is lp for x in ast.walk(o)) for o in own_nodes(f.node))]
+  loops = [lp for lp in loops if any(isinstance(c, ast.Call) and "Br(" in unparse(c) for c in ast.walk(lp))]
   if len(loops) != 1:
-    raise AnalysisError(f"{f.qualname}: expected one `for i, line in enumerate(lines)` loop")
+    raise AnalysisError(f"{f.qualname}: expected one per-line loop that pushes Br elements, found {len(loops)}")
   lp = loops[0]
-  idx = lp.target.elts[0].id if isinstance(lp.target, ast.Tuple) else None
-  first = lp.body[0]
-  ok = isinstance(first, ast.If) and unparse(first.test).replace(" ", "") in (f"{idx}>0", f"0<{idx}", f"{idx}!=0", f"{idx}>=1") and \
-    any(_is_push(c, push_wrappers(ctx.ix, f.cls)) and "Br(" in unparse(c) and unparse(c.func.value) in ("self.parent", "self") for c in own_nodes(first)) and not first.orelse
-  ctx.check(ok, rule, f"{f.qualname}|a line break precedes every line but the first", ctx.where(f.module, lp),
-            f"loop body starts with `if {idx} > 0: push Br at the insertion point`", "the per-line loop no longer starts by pushing a Br at the insertion point (self.parent) for every line after the first: a line break can be skipped or land outside the open span")
+  it = lp.iter
+  idx = None
+  if isinstance(it, ast.Call) and isinstance(it.func, ast.Name) and it.func.id == "enumerate" and isinstance(lp.target, ast.Tuple) and isinstance(lp.target.elts[0], ast.Name):
+    idx = lp.target.elts[0].id
+  wrappers = push_wrappers(ctx.ix, f.cls)
+  # the statements before the loop give the initial values of flags
+  blk = next((getattr(parent(lp), fld) for fld in ("body", "orelse") if isinstance(getattr(parent(lp), fld, None), list) and any(x is lp for x in getattr(parent(lp), fld))), [])
+  pre = fineval.collect(ctx.ix, f, blk[:next(k for k, x in enumerate(blk) if x is lp)], {}, ("self.parent", "self"))
+  env = dict(pre.env)
+  problems = []
+  for k in range(3):
+    if idx is not None:
+      env[idx] = k
+    eff = fineval.collect(ctx.ix, f, lp.body, env, ("self.parent", "self"))
+    env = dict(eff.env)
+    pushes_before_br, br, blocked = 0, False, False
+    for ev in eff.trace:
+      if ev[0] == "skipped-if":
+        if not br and any(isinstance(x, (ast.Continue, ast.Break, ast.Return)) or (isinstance(x, ast.Call) and "Br(" in unparse(x)) for x in ast.walk(ev[1])):
+          blocked = True
+      elif ev[1] == "push_child" or ev[1] in wrappers:
+        is_br = any("Br(" in unparse(a) for a in ev[3].args)
+        if is_br:
+          br = True
+        elif not br:
+          pushes_before_br += 1
+    if k == 0 and br:
+      problems.append("a Br is pushed before the first line")
+    if k > 0 and not br:
+      problems.append(f"no Br is pushed in iteration {k}" + (" (it depends on a test that cannot be decided here)" if blocked else ""))
+    if k > 0 and br and (pushes_before_br or blocked):
+      problems.append(f"in iteration {k} the Br does not come first")
+  ctx.check(not problems, rule, f"{f.qualname}|a line break precedes every line but the first", ctx.where(f.module, lp),
+            "iterations 0, 1, 2 of the per-line loop push: nothing / Br first / Br first",
+            "; ".join(problems[:3]) + ": a line break can be skipped, doubled or land outside the open span")
   # the split is on the newline character
   sp = [c for c in own_nodes(f.node) if isinstance(c, ast.Call) and isinstance(c.func, ast.Attribute) and c.func.attr == "split"]
   ctx.check(any(c.args and isinstance(c.args[0], ast.Constant) and c.args[0].value == "\n" for c in sp), rule, f"{f.qualname}|lines are split at newline", ctx.where(f.module, f.node),
